@@ -825,6 +825,15 @@ func checkSumCopy(e *Env, r *cliRunner, c *CliCase) {
 	if foreignPanic(e, res) {
 		return
 	}
+	// does the existing destination of a matched item have another layout?
+	otherLayout := false
+	for _, it := range items {
+		for _, f := range c.Files {
+			if f.Base == "dst" && !f.Absent && f.Rel == it+"/"+c.Cmd.Dest && f.Layout.String() != c.Cmd.Create.String() {
+				otherLayout = true
+			}
+		}
+	}
 	now := res.now
 	from, until := c.Cmd.window(now)
 	if from > until {
@@ -838,11 +847,19 @@ func checkSumCopy(e *Env, r *cliRunner, c *CliCase) {
 		return
 	}
 	if res.err != nil {
+		if otherLayout {
+			e.Probe("destination-with-another-layout-reported")
+			return
+		}
 		if c.Tick != nil {
 			e.Note("sum-copy-failed-under-tick")
 			return
 		}
 		e.Violate("C11.sum-copy-fails", "sum-copy over valid sources failed: %v", res.err)
+		return
+	}
+	if otherLayout {
+		e.Violate("C11.equal", "sum-copy reported success although the existing destination of one matched item has another layout than the sources: that file cannot hold the series sum computes for the item")
 		return
 	}
 	for _, it := range items {
@@ -1309,6 +1326,20 @@ func checkGenerate(e *Env, r *cliRunner, c *CliCase) {
 		}
 		return
 	}
+	if c.Cmd.TextOut == "stdout" {
+		// the worker's own standard output must not be polluted; with the
+		// stdout-unwritable environment nothing can be written to it
+		sink := os.DevNull
+		if c.EnvFault == "stdout-unwritable" {
+			sink = "/dev/full"
+			e.Fault("F6.stdout-unwritable")
+		}
+		if f, err := os.OpenFile(sink, os.O_WRONLY, 0); err == nil {
+			old := os.Stdout
+			os.Stdout = f
+			defer func() { os.Stdout = old; f.Close() }()
+		}
+	}
 	res := r.run1(c.Cmd, "gen")
 	if foreignPanic(e, res) {
 		return
@@ -1327,6 +1358,11 @@ func checkGenerate(e *Env, r *cliRunner, c *CliCase) {
 		return
 	}
 	if res.err != nil {
+		if c.EnvFault == "textout-devfull" || c.EnvFault == "stdout-unwritable" {
+			// the report could not be written: a loud failure; nothing is claimed
+			e.Probe("unwritable-report-is-a-failure")
+			return
+		}
 		e.Violate("C20.generate-fails", "generate with a valid layout failed: %v", res.err)
 		return
 	}
